@@ -570,10 +570,41 @@ def check_deepest_first(ctx):
     ancestors: the loop walks TaxonomyTree.all_parents (built root first,
     level by level) in reverse."""
     db = ctx.db
+    rule = 'R-PROV/deepest-first'
+    # producer side: all_parents lists the root, then the levels in
+    # hierarchy order, and nothing re-orders the list afterwards
+    ap = db.fn('taxonomy.taxonomy_tree:TaxonomyTree.all_parents')
+    ctx.touch(ap)
+    acfg = cfg_of(ap)
+    ard = rd_of(ap)
+    aex = Expander(ap)
+    okp = False
+    why = 'the loop over the hierarchy was not found'
+    for n_ in acfg.nodes:
+        if n_.kind == 'for' and n_.id in ard.live:
+            t_ = aex.expand(n_.ast.iter, n_.id)
+            if any(x == ('const', "'hierarchy'") for x in T.subterms(t_)) \
+                    and not any(x[0] == 'call' for x in T.subterms(t_)):
+                okp = True
+    reorder = sorted({
+        (c.func.attr if isinstance(c.func, ast.Attribute) else c.func.id)
+        for c in ast.walk(ap.node) if isinstance(c, ast.Call)
+        and isinstance(c.func, (ast.Attribute, ast.Name))
+        and (c.func.attr if isinstance(c.func, ast.Attribute)
+             else c.func.id) in ('sort', 'sorted', 'reverse', 'reversed',
+                                 'set', 'shuffle')})
+    if reorder:
+        okp = False
+        why = f'the list is re-ordered ({", ".join(reorder)})'
+    ctx.ob(rule, 'TaxonomyTree.all_parents:order', ap.loc(), okp,
+           'parents are listed root first, then level by level in '
+           'hierarchy order' if okp else
+           f'all_parents: {why}; validate_marker_lookup walks the list in '
+           'reverse to treat descendants before their ancestors, which '
+           'only works for a list in hierarchy order')
     fi = db.fn('type_assignment.marker_cache_v2:validate_marker_lookup')
     cfg = cfg_of(fi)
     rd = rd_of(fi)
-    rule = 'R-PROV/deepest-first'
     loops = []
     for n_ in cfg.nodes:
         if n_.kind == 'for' and n_.id in rd.live:
